@@ -280,8 +280,44 @@ func runC19(c *Ctx) {
 						a, ok1 := contents(x.Call.Args[0], depth+1)
 						b, ok2 := contents(x.Call.Args[1], depth+1)
 						return append(append([]string{}, a...), b...), ok1 && ok2
-					case strings.HasPrefix(n, "slices.Clip"), strings.HasPrefix(n, "slices.Clone"):
+					case strings.HasPrefix(n, "slices.Clip"), strings.HasPrefix(n, "slices.Clone"), strings.HasPrefix(n, "slices.Grow"):
 						return contents(x.Call.Args[0], depth+1)
+					case strings.HasPrefix(n, "slices.Concat") && len(x.Call.Args) == 1:
+						// the variadic operands, in order
+						sl, isSl := x.Call.Args[0].(*ssa.Slice)
+						if !isSl {
+							return nil, false
+						}
+						al, isAl := sl.X.(*ssa.Alloc)
+						if !isAl {
+							return nil, false
+						}
+						parts := map[int64]ssa.Value{}
+						for _, r := range core.Refs(al) {
+							ia, isIA := r.(*ssa.IndexAddr)
+							if !isIA {
+								continue
+							}
+							k, isK := core.ConstInt(ia.Index)
+							for _, rr := range core.Refs(ia) {
+								if st, isSt := rr.(*ssa.Store); isSt && isK {
+									parts[k] = st.Val
+								}
+							}
+						}
+						var out []string
+						for k := int64(0); k < int64(len(parts)); k++ {
+							pv, okP := parts[k]
+							if !okP {
+								return nil, false
+							}
+							cs, okC := contents(pv, depth+1)
+							if !okC {
+								return nil, false
+							}
+							out = append(out, cs...)
+						}
+						return out, len(parts) > 0
 					}
 				}
 				return nil, false
